@@ -93,9 +93,13 @@ func (d *DA) GetIDs(_ context.Context, height uint64, _ []byte) (*coreda.GetIDsR
 	d.mu.Lock()
 	defer d.mu.Unlock()
 	out := "ok"
+	d.failGet = false // a scripted Get failure concerns the fetch that follows its listing only
 	if s := d.Fetch[height]; len(s) > 0 {
 		out = s[0]
 		d.Fetch[height] = s[1:]
+	}
+	if out == "ok" && height >= d.Height {
+		out = "future"
 	}
 	d.FetchLog = append(d.FetchLog, fmt.Sprintf("ids:%d:%s", height, out))
 	switch {
@@ -112,15 +116,19 @@ func (d *DA) GetIDs(_ context.Context, height uint64, _ []byte) (*coreda.GetIDsR
 		}
 		d.failGet = true
 	}
-	if height >= d.Height {
-		return nil, fmt.Errorf("%w: requested %d, current %d", coreda.ErrHeightFromFuture, height, d.Height)
-	}
 	n := len(d.Blobs[height])
 	ids := make([]coreda.ID, n)
 	for i := range ids {
 		ids[i] = d.id(height, i)
 	}
 	return &coreda.GetIDsResult{IDs: ids, Timestamp: time.Unix(int64(height), 0)}, nil
+}
+
+// Log returns a copy of the fetch log.
+func (d *DA) Log() []string {
+	d.mu.Lock()
+	defer d.mu.Unlock()
+	return append([]string(nil), d.FetchLog...)
 }
 
 func (d *DA) Get(_ context.Context, ids []coreda.ID, _ []byte) ([]coreda.Blob, error) {
